@@ -214,6 +214,15 @@ pub fn family(tier: Tier) -> Vec<TrainCfg> {
             vec![vec![], vec!["ac,0,0,0,N,x\nca,0,0,0,V,new\n"], vec!["cc,0,0,0,Q,q\n", "ca,1,2,5,N,x\n"]],
         ),
         (
+            // non-ASCII literal text in front of (optional) references: byte and character offsets differ
+            "nonascii",
+            vec![("a", "N,x"), ("b", "V,*"), ("ab", "N,z"), ("c", "P,*"), ("bc", "V,x")],
+            ["品詞:%F[0]", "読:%F?[1]"],
+            [("読み:%L?[1]", "読み:%R?[1]"), ("品:%L[0]", "%R[0]")],
+            "a\tN,x\nb\tV,*\nEOS\nab\tN,z\nc\tP,*\nEOS\nbc\tV,x\na\tN,x\nEOS\n",
+            vec![vec![], vec!["ca,0,0,0,N,*\nbb,0,0,0,V,y\n"], vec!["cc,0,0,0,Q,*\n", "ca,1,2,5,N,x\n"]],
+        ),
+        (
             // feature values containing the '/' that separates the two sides of a bigram.cost line
             "slashcell",
             vec![("a", "N/A,x"), ("b", "V,y"), ("ab", "N,z/w"), ("c", "P/Q,x"), ("bc", "V,x")],
@@ -731,13 +740,34 @@ pub fn check_c18_dict(cfg: &TrainCfg, m: &mut Model, st: &mut Stats) -> bool {
         let Some((_, l, r, _, _)) = split_row(line) else { return false };
         rows.push((f.clone(), l, r));
     }
+    // user rows given as 0,0,0 receive connection ids from the model too (in the order read).
+    // Their features are interned after training: a string the training pruned (zero weight,
+    // shown as '*' for the seed words) is a new feature for them, so they form classes of their
+    // own: equal tuples share an id AMONG the user rows, and the listed tuple must be theirs.
+    let mut user_rows: Vec<(String, u32, u32)> = vec![];
+    let user_in: Vec<(String, u32, u32, i64, String)> = cfg.users.iter().flat_map(|u| u.lines().map(|l| l.to_string()).collect::<Vec<_>>()).filter_map(|l| split_row(&l)).collect();
+    let user_out: Vec<(String, u32, u32, i64, String)> = g.user.lines().filter_map(split_row).collect();
+    if user_in.len() == user_out.len() {
+        for (i, o) in user_in.iter().zip(&user_out) {
+            if (i.1, i.2, i.3) == (0, 0, 0) {
+                user_rows.push((i.4.clone(), o.1, o.2));
+                st.count("user_rows_checked_for_connection_classes");
+            }
+        }
+    }
     let parse_side = |text: &str| -> Vec<Vec<String>> { text.lines().map(|l| csv_cells(l.split_once('\t').map_or("", |x| x.1))).collect() };
     let left_file = parse_side(&bg.left); // line i <-> left id i+1, cells = right-context (%R) expansions
     let right_file = parse_side(&bg.right);
     let k = cfg.bigram_templates.len();
     let mut left_class: HashMap<Vec<Option<String>>, u32> = HashMap::new();
     let mut right_class: HashMap<Vec<Option<String>>, u32> = HashMap::new();
-    for (f, l, r) in &rows {
+    let n_model_rows = rows.len();
+    rows.extend(user_rows);
+    for (ri, (f, l, r)) in rows.iter().enumerate() {
+        if ri == n_model_rows {
+            left_class.clear();
+            right_class.clear();
+        }
         let feats = csv_cells(f);
         let rf = ref_rewrite("[right rewrite]", &cfg.rewrite, &feats);
         let lf = ref_rewrite("[left rewrite]", &cfg.rewrite, &feats);
@@ -1404,6 +1434,8 @@ fn outputs(m: &mut Model) -> Result<Outputs, String> {
 fn user_menu(cfg: &TrainCfg) -> [&'static str; 3] {
     if cfg.name.starts_with("emptycell") {
         ["ca,0,0,0,N,\nbb,0,0,0,,z\n", USER_MENU[1], "cc,0,0,0,,\n"]
+    } else if cfg.name.starts_with("nonascii") {
+        ["ca,0,0,0,N,*\nbb,0,0,0,V,y\n", USER_MENU[1], "cc,0,0,0,Q,*\n"]
     } else if cfg.name.starts_with("hashcell") {
         ["ca,0,0,0,#,x\nbb,0,0,0,V,#\n", USER_MENU[1], "cc,0,0,0,#,#\n"]
     } else {
